@@ -56,10 +56,10 @@ func newSyntaxError(msg string, pos *position) *SyntaxError {
 
 func newWrappedSyntaxError(msg string, pos *position, wrapped error) *SyntaxError {
 	e := &SyntaxError{msg: msg, wrapped: wrapped}
-	if pos == nil && wrapped != nil && wrapped.(*SyntaxError).line > 0 {
-		e.line = wrapped.(*SyntaxError).line
-	} else {
+	if pos != nil {
 		e.line = pos.lineNumber
+	} else if w, ok := wrapped.(*SyntaxError); ok {
+		e.line = w.line
 	}
 	return e
 }
